@@ -5,7 +5,7 @@ from __future__ import annotations
 
 import collections
 
-from ..common import Report, main_wrapper, scratch, seed
+from ..common import Report, main_wrapper, scratch, eff_seed
 from ..machine import run_units
 from .. import instrwrap
 from .args import parse
@@ -16,7 +16,7 @@ def main():
     rep = Report("C14", a.tier, "translation_validation")
     quick = a.tier == "quick"
     with scratch() as d:
-        recs, avx512 = instrwrap.run(seed(), d, max_ctl=16 if quick else 64, reps=2 if quick else 8, only=a.only)
+        recs, avx512 = instrwrap.run(eff_seed(), d, max_ctl=16 if quick else 64, reps=2 if quick else 8, only=a.only)
         built = [r for r in recs if r["status"] == "built"]
         units = [r["unit"] for r in built]
         res = run_units(units, d, stepbound=8000)
